@@ -152,11 +152,11 @@ def rule_r2(ctx) -> RuleResult:
 
 def rule_r3(ctx) -> RuleResult:
     rr = RuleResult("C08.R3", "the bridge detects named arguments and numbers positional ones like the expander", min_instances=3)
-    for r in (c14.rule_r2(ctx), c14.rule_r4(ctx), c14.rule_r1(ctx)):
+    for r in (c14.rule_r2(ctx), c14.rule_r4(ctx), c14.rule_r1(ctx), c14.rule_r5(ctx), c14.rule_r6(ctx)):
         for f in r.findings:
-            if "make_frame" in f.function or "luaexec" in f.file:
+            if "make_frame" in f.function or "luaexec" in f.file or "_sandbox_phase2" in f.file:
                 rr.bad(Finding("C08.R3", f.file, f.function, f.construct, f.message, f.line))
-        keep = [c for c in r.cases if "make_frame" in c[0] or c[0] == "name classes"]
+        keep = [c for c in r.cases if "make_frame" in c[0] or c[0] == "name classes" or "_sandbox_phase2" in c[0]]
         for c in keep:
             if not any(f.function == c[0] and f.construct == c[1] for f in r.findings):
                 rr.ok(c[0], c[1])
@@ -189,5 +189,59 @@ def rule_r4(ctx) -> RuleResult:
     return rr
 
 
+ARG_MAPS = {"args", "argmap", "ht", "frame_args", "args2", "new_args"}
+
+
+def rule_r5(ctx) -> RuleResult:
+    """An argument that is present but empty is still an argument.  Wherever an argument map is
+    probed with `.get(k[, None])` / `.pop(k, None)`, absence is decided by `is None`, never by
+    truthiness (`""` is a legitimate value: `{name="#if", args={"", "yes", "no"}}`)."""
+    rr = RuleResult("C08.R5", "absence of an argument is tested with `is None`, not by truthiness", min_instances=2)
+
+    def is_probe(v):
+        return isinstance(v, ast.Call) and isinstance(v.func, ast.Attribute) and v.func.attr in ("get", "pop") \
+            and isinstance(v.func.value, ast.Name) and v.func.value.id in ARG_MAPS and v.args \
+            and (len(v.args) == 1 or (isinstance(v.args[1], ast.Constant) and v.args[1].value is None))
+
+    def truthy_uses(test, names):
+        """sub-expressions of a condition that are evaluated for truthiness"""
+        out = []
+
+        def rec(e):
+            if isinstance(e, ast.BoolOp):
+                for x in e.values:
+                    rec(x)
+            elif isinstance(e, ast.UnaryOp) and isinstance(e.op, ast.Not):
+                rec(e.operand)
+            elif isinstance(e, ast.Name) and e.id in names:
+                out.append(e)
+            elif isinstance(e, ast.NamedExpr) and is_probe(e.value):
+                out.append(e)
+
+        rec(test)
+        return out
+
+    for dotted in ("parserfns.call_parser_function", X.ARGS, X.RECURSE, MF):
+        fn = ctx.fn(dotted)
+        rel = ctx.index.mod(dotted.split(".")[0]).relpath
+        probes = {}
+        for n in walk_no_nested(fn):
+            if isinstance(n, ast.Assign) and len(n.targets) == 1 and isinstance(n.targets[0], ast.Name) and is_probe(n.value):
+                probes[n.targets[0].id] = n
+        for n in walk_no_nested(fn):
+            test = n.test if isinstance(n, (ast.If, ast.While, ast.IfExp)) else None
+            if test is None:
+                continue
+            for u in truthy_uses(test, set(probes)):
+                rr.bad(Finding("C08.R5", rel, dotted, unparse(test)[:80],
+                               "the value fetched from the argument map is tested for truthiness: an empty-string argument is taken for a "
+                               "missing one (the argument vector is cut short at the first empty argument)", n.lineno))
+            for c in ast.walk(test):
+                if isinstance(c, ast.Compare) and isinstance(c.left, ast.Name) and c.left.id in probes and len(c.ops) == 1 \
+                        and isinstance(c.ops[0], (ast.Is, ast.IsNot)) and isinstance(c.comparators[0], ast.Constant) and c.comparators[0].value is None:
+                    rr.ok(dotted, unparse(c), {"fn": dotted, "probe": unparse(probes[c.left.id].value), "test": unparse(c)})
+    return rr
+
+
 def run(ctx) -> list:
-    return [rule_r1(ctx), rule_r2(ctx), rule_r3(ctx), rule_r4(ctx)]
+    return [rule_r1(ctx), rule_r2(ctx), rule_r3(ctx), rule_r4(ctx), rule_r5(ctx)]
